@@ -221,6 +221,16 @@ def family_db_views(seed):
     DM = lambda back, mask: ["damage_manifest", str(back), str(mask)]
     fam.append([P("a", "1"), P("b", "old"), F, P("b", "new"), F, DM(3, 64), P("c", "1")])
     fam.append([P("a", "1"), F, C, P("b", "2"), F, C, P("a", "3"), F, DM(20 + seed % 7, 1 << (seed % 8))])
+    # F14 (fixed): a seek-triggered TRIVIAL MOVE must release the version it was computed from -
+    # level 2 = [a..z], level 0 = [a..c] (level 1 emptied); 100 lookups of the absent key `b` consult
+    # both files and charge the level-0 file, which is then moved to level 1; a later compaction
+    # makes both files obsolete; with nothing pinning an older version the directory must hold the
+    # current version's files only (before the repair the pre-move version stayed in the version
+    # list for the life of the process, and so did the two dead files on disk)
+    GM, SL, DC = (lambda k, n: ["get_many", a(k), str(n)]), (lambda ms: ["sleep", str(ms)]), ["dircheck"]
+    fam.append([P("a", "1"), P("z", "1"), F, P("a", "2"), P("z", "2"), F, P("a", "3"), P("c", "3"), F, CL(1, "a", "z"),
+                GM("b", 100), SL(1200), CL(1, "a", "z"), SL(300), DC])
+    fam.append([P("a", "1"), P("b", "1"), F, S, P("a", "2"), F, C, I, P("c", "1"), F, C, DC])
     # pseudo-random histories over a small key space
     x = (seed * 2654435761 + 12345) & 0xffffffff
     def rnd(n):
